@@ -3,6 +3,7 @@
 namespace sim {
 void base_knobs(Rng &r, Plan &p, bool timing_sensitive);
 std::string rand_text(Rng &r, size_t maxlen);
+std::string long_text(Rng &r);
 Json oracle_list(std::initializer_list<const char *> l);
 // legal short transfers: write() (or read()) of the named program accepts only a few of the bytes offered, a few times per run
 inline void add_short_io(Rng &r, Plan &p, const std::string &actor, double prob, bool reads = false) {
